@@ -53,7 +53,7 @@ type fnSpec struct {
 }
 
 // groups in file order; a function may only call functions of its own or an earlier group
-var groups = []string{"", "Tak", "Sym", "AI", "FPA"}
+var groups = []string{"", "Tak", "Over", "Move", "Sym", "AI", "FPA"}
 
 var whitelist = []fnSpec{
 	{dir: "bitboard", file: "bits.go", name: "Precompute", lean: "precompute"},
@@ -72,21 +72,25 @@ var whitelist = []fnSpec{
 	{dir: "prove", file: "dfpn.go", recv: "proofNumbers", name: "exceeded", lean: "pnExceeded"},
 	{dir: "prove", file: "dfpn.go", recv: "proofNumbers", name: "solved", lean: "pnSolved"},
 
-	// group Tak: bitboard.Flood, tak/pieces.go, tak/slide.go Len, tak/move.go small methods, tak/game.go helpers
-	{dir: "bitboard", file: "bits.go", name: "Flood", lean: "flood", group: "Tak", fuel: []string{"66"}},
+	// group Tak: tak/pieces.go, Position.ToMove
 	{dir: "tak", file: "pieces.go", name: "MakePiece", lean: "makePiece", group: "Tak"},
 	{dir: "tak", file: "pieces.go", recv: "Piece", name: "Color", lean: "pieceColor", group: "Tak"},
 	{dir: "tak", file: "pieces.go", recv: "Piece", name: "Kind", lean: "pieceKind", group: "Tak"},
 	{dir: "tak", file: "pieces.go", recv: "Piece", name: "IsRoad", lean: "pieceIsRoad", group: "Tak"},
 	{dir: "tak", file: "pieces.go", recv: "Color", name: "Flip", lean: "colorFlip", group: "Tak"},
-	{dir: "tak", file: "slide.go", recv: "Slides", name: "Len", lean: "slidesLen", group: "Tak", fuel: []string{"8"}},
-	{dir: "tak", file: "move.go", recv: "Move", name: "IsSlide", lean: "moveIsSlide", group: "Tak"},
-	{dir: "tak", file: "move.go", recv: "Move", name: "Equal", lean: "moveEqual", group: "Tak"},
-	{dir: "tak", file: "move.go", recv: "Move", name: "Dest", lean: "moveDest", group: "Tak"},
 	{dir: "tak", file: "game.go", recv: "Position", name: "ToMove", lean: "positionToMove", group: "Tak"},
-	{dir: "tak", file: "game.go", recv: "Position", name: "countFlats", lean: "positionCountFlats", group: "Tak"},
-	{dir: "tak", file: "game.go", recv: "Position", name: "flatsWinner", lean: "positionFlatsWinner", group: "Tak"},
-	{dir: "tak", file: "game.go", recv: "Position", name: "GameOver", lean: "positionGameOver", group: "Tak"},
+
+	// group Over: bitboard.Flood and the game-end helpers of tak/game.go
+	{dir: "bitboard", file: "bits.go", name: "Flood", lean: "flood", group: "Over", fuel: []string{"66"}},
+	{dir: "tak", file: "game.go", recv: "Position", name: "countFlats", lean: "positionCountFlats", group: "Over"},
+	{dir: "tak", file: "game.go", recv: "Position", name: "flatsWinner", lean: "positionFlatsWinner", group: "Over"},
+	{dir: "tak", file: "game.go", recv: "Position", name: "GameOver", lean: "positionGameOver", group: "Over"},
+
+	// group Move: tak/slide.go Len, tak/move.go small methods
+	{dir: "tak", file: "slide.go", recv: "Slides", name: "Len", lean: "slidesLen", group: "Move", fuel: []string{"8"}},
+	{dir: "tak", file: "move.go", recv: "Move", name: "IsSlide", lean: "moveIsSlide", group: "Move"},
+	{dir: "tak", file: "move.go", recv: "Move", name: "Equal", lean: "moveEqual", group: "Move"},
+	{dir: "tak", file: "move.go", recv: "Move", name: "Dest", lean: "moveDest", group: "Move"},
 
 	// group Sym: symmetry/canonical.go
 	{dir: "symmetry", file: "canonical.go", name: "symmetries", lean: "symmetries", group: "Sym", table: true},
@@ -1730,8 +1734,11 @@ func (g *generator) closureTable(p *pkgInfo, spec fnSpec, group int, fd *ast.Fun
 func groupFile(gr string) string { return "Funcs" + gr + ".lean" }
 
 // genFuncs returns file name -> content for every group.
+// A group with a failed function is not written at all (the caller keeps the last good file, so that properties that
+// do not depend on the group still build); the error names the group.
 func genFuncs(ld *loader) (map[string]string, []error) {
 	var errs []error
+	fail := func(gr string, err error) { errs = append(errs, fmt.Errorf("[%s] %v", groupFile(gr), err)) }
 	g := &generator{ld: ld, done: map[string]*fnInfo{}, structs: map[string]bool{}}
 	out := map[string]string{}
 	gidx := map[string]int{}
@@ -1746,17 +1753,17 @@ func genFuncs(ld *loader) (map[string]string, []error) {
 				continue
 			}
 			if _, ok := gidx[spec.group]; !ok {
-				errs = append(errs, fmt.Errorf("%s.%s: unknown group %q", spec.dir, spec.name, spec.group))
+				fail(gr, fmt.Errorf("%s.%s: unknown group %q", spec.dir, spec.name, spec.group))
 				continue
 			}
 			p, err := ld.load(spec.dir)
 			if err != nil {
-				errs = append(errs, fmt.Errorf("%s.%s: %v", spec.dir, spec.name, err))
+				fail(gr, fmt.Errorf("%s.%s: %v", spec.dir, spec.name, err))
 				continue
 			}
 			fd := findFunc(p, spec)
 			if fd == nil {
-				errs = append(errs, fmt.Errorf("%s.%s: function not found in %s/%s", spec.dir, spec.name, spec.dir, spec.file))
+				fail(gr, fmt.Errorf("%s.%s: function not found in %s/%s", spec.dir, spec.name, spec.dir, spec.file))
 				continue
 			}
 			var def string
@@ -1767,7 +1774,7 @@ func genFuncs(ld *loader) (map[string]string, []error) {
 				def, t = g.function(p, spec, gi, fd)
 			}
 			if t.err != nil {
-				errs = append(errs, t.err)
+				fail(gr, t.err)
 				continue
 			}
 			for _, n := range t.sorder {
@@ -1803,7 +1810,15 @@ func genFuncs(ld *loader) (map[string]string, []error) {
 			b.WriteString("\n")
 		}
 		b.WriteString("end Gen\n")
-		out[groupFile(gr)] = b.String()
+		failed := false
+		for _, e := range errs {
+			if strings.HasPrefix(e.Error(), "["+groupFile(gr)+"]") {
+				failed = true
+			}
+		}
+		if !failed {
+			out[groupFile(gr)] = b.String()
+		}
 	}
 	return out, errs
 }
